@@ -42,6 +42,16 @@ PROPS = {
                "p256_recode_u129_naf", "ed25519_recode_scalar_naf", "jq255e_recode_scalar_naf", "jq255s_recode_scalar_naf",
                "secp256k1_recode_scalar_naf", "p256_recode_scalar_naf", "ed448_recode_scalar_naf", "ed448_recode_halfwidth_naf"],
     ),
+    "C16": dict(
+        title="LMS never reuses a one-time key and accepts exactly its own signatures",
+        verus=[],
+        kani=[("lms::sha256_m32::k_sign_state_machine", "quick", "full-domain"), ("lms::sha256_m32::k_verify_total", "quick", "full-domain")]
+             + [("lms::%s::%s" % (ps, hn), "thorough", "full-domain") for ps in ("sha256_m24", "shake_m24", "shake_m32") for hn in ("k_sign_state_machine", "k_verify_total")],
+        cases=[],
+        explanation="One call of sign() is proved against its contract for every key state (all 2^32 counter values, symbolic I/SEED/tree): below 2^h it returns a signature carrying the old index and the right authentication path and leaves counter = old+1 with I, SEED and the tree unchanged; at or above 2^h it returns None and changes nothing. The whole-history statement (strictly increasing indices, each at most once, exhaustion) is the induction over calls on that contract. verify(): false for every wrong length, out-of-range index, and no panic. The one-time signature (ots_sign/ots_verify) and the hash functions are havoc stubs in these harnesses.",
+        assumptions=["ots_sign / ots_verify / Hm replaced by havoc stubs (kani::stub): the Winternitz chain arithmetic and 'own signatures verify' are not decided by the deductive check (see stand-in sweep cases lms_*)",
+                     "'rejects any other message' is a collision-resistance statement about the hash, not a theorem of the code: not claimed"],
+    ),
 }
 
 NOT_APPLICABLE = {
